@@ -361,8 +361,11 @@ class ModelCacheMixin:
 
             return min(cached, key=signed_key if signed else lambda v: v)
 
+        # like for eval: the optimum's model only ends up in the cache if the solver already knows all of e's variables
+        # (checked before solving: the solve itself may add a helper constraint that introduces them)
+        cacheable = len(extra_constraints) == 0 and self.variables.issuperset(e.variables)
         m = super().min(e, extra_constraints=extra_constraints, signed=signed, exact=exact)
-        if len(extra_constraints) == 0:
+        if cacheable:
             (self._min_signed_exhausted if signed else self._min_exhausted)[e.hash()] = e
         return m
 
@@ -379,8 +382,9 @@ class ModelCacheMixin:
 
             return max(cached, key=signed_key if signed else lambda v: v)
 
+        cacheable = len(extra_constraints) == 0 and self.variables.issuperset(e.variables)
         m = super().max(e, extra_constraints=extra_constraints, signed=signed, exact=exact)
-        if len(extra_constraints) == 0:
+        if cacheable:
             (self._max_signed_exhausted if signed else self._max_exhausted)[e.hash()] = e
         return m
 
